@@ -133,6 +133,16 @@ NON_FUNCTIONS = [
     ("async-function-source", "async def f():\n    return 1\n"),
     ("ast-list-of-assign", "NODES:x = 1"),
     ("ast-list-of-class", "NODES:class A:\n    pass"),
+    ("ast-list-of-two-functions", "NODES:def f():\n    return 1\ndef g():\n    return 2"),
+    ("ast-list-of-two-functions-same-name", "NODES:def f():\n    return 1\ndef f():\n    return 2"),
+    ("ast-list-of-three-functions", "NODES:def f():\n    return 1\ndef g():\n    return 2\ndef h():\n    return 3"),
+    ("ast-list-function-then-assignment", "NODES:def f():\n    return 1\nx = 1"),
+    ("ast-list-assignment-then-function", "NODES:x = 1\ndef f():\n    return 1"),
+    ("ast-list-of-async-function", "NODES:async def f():\n    return 1"),
+    ("ast-list-of-lambda-expression", "NODES:lambda: 1"),
+    ("module-object", "MODULE"),
+    ("blank-lines-source", "\n\n"),
+    ("comment-only-source", "# def f(): pass\n"),
     ("empty-list", "EMPTYLIST"),
     ("integer", "INT"),
     ("none", "NONE"),
@@ -159,6 +169,8 @@ def run_case(case):
             arg = 42
         elif v == "NONE":
             arg = None
+        elif v == "MODULE":
+            arg = ast.parse("def f():\n    return 1\n")
         else:
             arg = v
     try:
